@@ -179,6 +179,13 @@ theorem cmpList_prefix (h : LawfulCmp c) : ∀ (p s : List α), cmpList c p (p +
   | nil => intro s; cases s <;> simp [cmpList]
   | cons x xs ih => intro s; simp only [List.cons_append, cmpList, h.refl]; exact ih s
 
+/-- a common prefix does not take part in the comparison. -/
+theorem cmpList_append_left (h : LawfulCmp c) : ∀ (p a b : List α), cmpList c (p ++ a) (p ++ b) = cmpList c a b := by
+  intro p
+  induction p with
+  | nil => intro a b; rfl
+  | cons x xs ih => intro a b; simp only [List.cons_append, cmpList, h.refl]; exact ih a b
+
 theorem cmpList_prefix_ne_gt (h : LawfulCmp c) {p a : List α} (hp : p <+: a) : cmpList c p a ≠ .gt := by
   obtain ⟨s, rfl⟩ := hp
   rw [cmpList_prefix h]; split <;> decide
